@@ -172,7 +172,7 @@ def main():
                     ensures={"C26.acts_on_allocated_rows": e_same_as_resolved,
                              "C26.unknown_temp_id_rejected": e_unknown_rejected,
                              "C26.failed_bundle_no_trace": e_failure_no_trace})
-  fn.check(rep, c, _cases, exhaustive=True)
+  fn.check(rep, c, _cases, exhaustive=True, warm_engine=True)
   return rep.finish()
 
 
